@@ -323,7 +323,8 @@ def run(chk, facts, tier):
         "from satisfied forbids when any, else satisfied permits, and the two sources iterate the right bucket with the right effect; "
         "(ERRORS) errors() draws only from recorded errors and residuals; (ENTRY) public entry points are exactly partial response + concretize; "
         "(PURE) no function reachable from the entry points touches mutable global state, time, randomness, environment or files; "
-        "(ORDER) reasons are an unordered set. Decides these clauses, not the evaluator's per-policy outcome (C02).")
+        "(ORDER) reasons are an unordered set; (CONDITION / SCOPE) a policy's condition is principal-scope && (action-scope && (resource-scope && body | true)) and each scope constraint "
+        "denotes the expression the language gives it on the constraint's own variable. Decides these clauses, not the evaluator's per-policy outcome (C02).")
     chk.assumptions = [
         "MIR at mir-opt-level=0 reflects the source's control flow",
         "per-policy outcome (satisfied / false / residual / error) is computed correctly by Evaluator::partial_evaluate (C02)",
@@ -339,3 +340,5 @@ def run(chk, facts, tier):
     purity.check_pure(chk, facts, "C01.PURE",
                       ["cedar_policy_core::authorizer::Authorizer::is_authorized",
                        "cedar_policy::api::Authorizer::is_authorized"])
+    from rules import c01_condition
+    c01_condition.check(chk, facts)
